@@ -23,6 +23,27 @@ CHECKS = {
         "and round-tripping through the real codec with identical bytes and hash.",
    note="trusted: bridge codec; values include separator and binary bytes",
    technique="TLC trace validation (MPTTrace.tla sweep/keys rules) of real stores + Codec.tla design check"),
+ "C06": dict(level="model_checking", ref="DESIGN.md §5 C06",
+   text="TLC model-checks StateCache.tla (block tree, uncommitted/committed write layers, Truth = closest committed write on the "
+        "ancestor chain) exhaustively in a scope with a chain, a fork, a gap and a re-executed block; TLC emits every behaviour of "
+        "depth 3 (quick) / 4 (thorough) plus -simulate samples; these, seeded random block trees and long-chain capacity scenarios "
+        "run on the real caches, and TLC validates every lookup of every trace: result = miss or result = Truth.",
+   note="known finding C06-EvictCloser (per-key LRU capacity) is characterised by a ghost predicate of the specification",
+   technique="TLA+ spec (StateCache.tla) + TLC design check + TLC-generated behaviours replayed into the Go code + TLC trace validation"),
+ "C07": dict(level="model_checking", ref="DESIGN.md §5 C07",
+   text="Same specification and traces: TLC checks the visibility invariants (TxnPrivate, BlockPrivate, ForkIndependent, "
+        "CommitStable) on the design and, on traces, that committed writes are found from descendant contexts (MustHit inside the "
+        "capacities) and that no value is shared: the executor uses mutable values (own type and real LeafNode/FullNode), mutates "
+        "everything it hands in or receives, and the specification has no transition for that.",
+   note="block cache / transaction caches are not judged after their block's Commit",
+   technique="TLA+ visibility invariants model-checked by TLC + TLC trace validation with caller-side mutation of all exchanged values"),
+ "C08": dict(level="model_checking", ref="DESIGN.md §5 C08, Appendix D",
+   text="StateCacheConc.tla models Get and commit at the granularity of shared-map accesses; TLC proves hit=>Truth, no poisoned memo "
+        "and findability over all interleavings of 32 scopes (and refutes the previous step order); TLC emits every maximal schedule "
+        "of 1 committer + 1 reader and samples of 2 committers + 2..3 readers, which are replayed deterministically on real goroutines "
+        "through the verif yield hook and judged by TLC; free-running 8x32 stress under the race detector is judged by the same rule.",
+   note="data races are decided by the Go race detector, not by the specification",
+   technique="TLA+ step-level concurrency model checked by TLC; TLC-generated schedules replayed on goroutines via yield hook; TLC judges results; race detector"),
 }
 
 NOT_APPLICABLE = []
